@@ -111,6 +111,7 @@ struct Monitor {
         if (dead) return;
         dead = true;
         if (before_report) before_report();
+        resolve_whole_run_taint();
         if (!taint.empty())
             vh::viol(taint, taint_what + "; first broken rule: " + key + ": " + detail);
         else
@@ -342,40 +343,20 @@ struct Monitor {
     //! succeeded, stop if that succeeded, cleanup if initialize succeeded; the call boundaries are not
     //! visible from the hooks, so the Init and the Start hooks are each judged as one sequence.
     //! returns 0 if the reference says initialize fails, 1 if start fails, 2 if the tree ran
-    int on_run(const std::vector<Ev> &evs, size_t destroy_from = (size_t)-1) {
+    int on_run(const std::vector<Ev> &evs) {
         // reference first (it only reads the observed hook outcomes), then the invariants event by event
         Cursor ci; ci.seq = of_kind(evs, K_INIT);
         const bool r = ref_init(0, ci);
-        const std::vector<uint8_t> after_init = m_state;
+        run_after_init = m_state;
         Cursor cs; cs.seq = of_kind(evs, K_START);
         const bool r2 = (r && !ci.mismatch) ? ref_start(0, cs) : false;
-        const std::vector<uint8_t> after_start = m_state;
+        run_after_start = m_state;
+        // one key per root cause: if a rule breaks while a module that the reference says a failed
+        // initialize()/start() must not leave initialised/started is still standing, name that
+        whole_run = !ci.mismatch && !cs.mismatch;
 
-        auto init_boundary = [&]() {   // the Init hooks are over: is the failed part still standing?
-            m_state = after_init;
-            if (!ci.mismatch && taint.empty() && !hooks_match_model()) {
-                taint = "unwind/failed-initialize-left-standing";
-                taint_what = "initialize() left the part of the tree that failed half built:" + leftovers();
-            }
-            m_state = after_start;
-        };
         int li = -1, ls = -1;
-        bool in_start = false;
-        for (size_t i = 0; i < evs.size(); ++i) {
-            const Ev &e = evs[i];
-            if (i == destroy_from && !in_start && !r) init_boundary();   // a failed initialize() is followed by destruction only
-            if (e.k == K_START && !in_start) {
-                in_start = true;
-                init_boundary();
-                if (taint.empty() && !cs.mismatch && saw_req_early[1]) {
-                    taint = "unwind/failed-start-left-standing";
-                    taint_what = "a required module failed in start() and the modules started before it were left started";
-                }
-            }
-            apply(e, CALL_ANY, li, ls, evs);
-            if (dead) return -1;
-        }
-        if (!in_start && !r && destroy_from >= evs.size()) init_boundary();
+        for (auto &e : evs) { apply(e, CALL_ANY, li, ls, evs); if (dead) return -1; }
         if (ci.mismatch) { fail("predict/init-sequence", "initialize(): " + ci.why); return -1; }
         if (r && ci.pos != ci.seq.size()) { fail("predict/init-sequence", "initialize() succeeded but ran extra onInit hooks: " + ev_str(ci.seq)); return -1; }
         if (!r) {
@@ -385,6 +366,29 @@ struct Monitor {
         if (cs.mismatch) { fail("predict/start-sequence", "start(): " + cs.why); return -1; }
         if (r2 && cs.pos != cs.seq.size()) { fail("predict/start-sequence", "start() succeeded but ran extra onStart hooks: " + ev_str(cs.seq)); return -1; }
         return r2 ? 2 : 1;
+    }
+    std::vector<uint8_t> run_after_init, run_after_start;
+    bool whole_run = false;
+    void resolve_whole_run_taint() {
+        if (!whole_run || !taint.empty()) return;
+        std::string left;
+        if (saw_req_early[0]) {
+            for (size_t i = 0; i < N; ++i)
+                if (!is_virtual((int)i) && run_after_init[i] == 0 && h_inited[i]) left += vh::fmt(" module %zu still initialised;", i);
+            if (!left.empty()) {
+                taint = "unwind/failed-initialize-left-standing";
+                taint_what = "initialize() left the part of the tree that failed half built:" + left;
+                return;
+            }
+        }
+        if (saw_req_early[1]) {
+            for (size_t i = 0; i < N; ++i)
+                if (!is_virtual((int)i) && run_after_start[i] != 2 && h_started[i]) left += vh::fmt(" module %zu still started;", i);
+            if (!left.empty()) {
+                taint = "unwind/failed-start-left-standing";
+                taint_what = "start() left the part of the tree that failed half started:" + left;
+            }
+        }
     }
 
     //! hooks that ran while the tree was being destroyed (children of a root that was not cleaned up
